@@ -4,7 +4,7 @@ from . import common as C
 
 TIMEOUT = 1200
 RULE = ('every *_in_background request in every active-blob state (active / none with closed blobs / none at all), '
-        'sequences of up to 4 requests mixed with data operations and force_update with 4 predicates; then an overflow '
+        'sequences of up to 4 requests mixed with data operations and force_update with 5 predicates (one of them panics); then an overflow '
         'of the active blob past max_data_in_blob (writes separated by sleeps longer than the 200 ms debounce), a dump '
         'request, and close; checked: worker alive at every quiescence point, next_blob_id grows on overflow, close '
         'returns; spaced stream: dump requests (close / free_excess) each issued after the previous dump task finished with '
@@ -44,7 +44,8 @@ def gen_script(rng):
         if x < 0.55:
             L.append(rng.choice(['bg_close', 'bg_create', 'bg_restore']))
         elif x < 0.7:
-            L.append('force_update %s' % rng.choice(['always', 'always', 'never', 'some', 'nonempty']))
+            # (`panics`: the predicate is code of the caller; when it fails the request is dropped -- F38)
+            L.append('force_update %s' % rng.choice(['always', 'always', 'never', 'some', 'nonempty', 'panics']))
         elif x < 0.8:
             L.append('D %s 7 - %d' % (rng.choice(keys), rng.choice([0, 1])))
         elif x < 0.9:
